@@ -64,15 +64,17 @@ def ranked(P, i):
 class LogElicitor:
     """factory for a (Integer)LambdaElicitor over a valuation matrix that logs every forwarded question"""
 
-    def __init__(self, vals, memoize=True, integer=False):
+    def __init__(self, vals, memoize=True, integer=False, zero_indexed=True):
         from socialchoicekit.elicitation_utils import LambdaElicitor, IntegerLambdaElicitor
         self.vals = vals
-        self.log = []
+        self.log = []          # forwarded questions, 0-based (agent, alternative)
+        off = 0 if zero_indexed else 1
 
         def f(a, j):
-            self.log.append((int(a), int(j)))
-            return float(vals[int(a)][int(j)])
-        self.el = (IntegerLambdaElicitor if integer else LambdaElicitor)(f, memoize=memoize, zero_indexed=True)
+            # a one-indexed elicitor hands the backing function agent+1 / alternative+1
+            self.log.append((int(a) - off, int(j) - off))
+            return float(vals[int(a) - off][int(j) - off])
+        self.el = (IntegerLambdaElicitor if integer else LambdaElicitor)(f, memoize=memoize, zero_indexed=zero_indexed)
 
 
 def profile_of(P):
@@ -81,7 +83,8 @@ def profile_of(P):
     return StrictCompleteProfile.of(relayout(np.array(P, dtype=np.int64)))
 
 
-def run_rule(rule, P, vals, k, zero=True, tie_breaker="accept", memoize=True, cache=None, integer=False):
+def run_rule(rule, P, vals, k, zero=True, tie_breaker="accept", memoize=True, cache=None, integer=False, el_zero=True, share=False,
+             history=None):
     """returns dict(sim=matrix of exact rationals, out=outcome, log=[(agent, alt)...], count=elicitation_count).
     `cache`: dict of rule objects reused across calls (a caller may keep one rule object for many elections);
     `integer`: answer through an IntegerLambdaElicitor (valuations must be integers)"""
@@ -89,9 +92,19 @@ def run_rule(rule, P, vals, k, zero=True, tie_breaker="accept", memoize=True, ca
     from socialchoicekit.elicitation_allocation import LambdaTSF, MatchTwoQueries
     prof = profile_of(P)
     _LE = LogElicitor
-    LogEl = lambda v, mm: _LE(v, mm, integer)
-    le = LogEl(vals, memoize)
-    res = {}
+    first = _LE(vals, memoize, integer, el_zero)
+    npre = 0
+    if history:
+        # the elicitor already has a history of direct questions when the rule receives it
+        for a, j in history:
+            first.el.elicit(a, j)
+        npre = len(first.log)
+
+    def LogEl(v, mm):
+        # `share`: the simulated profile, the score and the outcome are all computed with the SAME elicitor object
+        return first if (share and mm) else _LE(v, mm, integer, el_zero)
+    le = first
+    res = {"pre_history": npre}
 
     def obj(key, mk):
         if cache is None:
